@@ -6,6 +6,7 @@ import (
 	"testing"
 
 	"verifsim/kit"
+	"verifsim/enginesim"
 	"verifsim/fwsim"
 	"verifsim/tablesim"
 )
@@ -22,6 +23,8 @@ func TestSim(t *testing.T) {
 		a.Prop, a.Engine = kit.PeekScenario(a.File)
 	}
 	switch a.Engine {
+	case "enginesim":
+		kit.Drive(t, enginesim.Engine{}, a)
 	case "fwsim":
 		kit.Drive(t, fwsim.Engine{}, a)
 	case "tablesim":
